@@ -227,6 +227,11 @@ PLANS = {
     "C01": dict(custom=c01_custom,
                 rule="TLC exhaustive on MC_Abci (Crash enabled in every phase, Restart from the durable state, re-proposal of the interrupted block; invariants RestartResumesCommitted, DurableAgreesWithReference); behaviours with TLC-chosen crash points and mixed random histories with EVERY crash point are executed on three real replicas (MemDB uninterrupted; goleveldb crashed/restarted with interleaved CheckTx and queries; separate process with GOMAXPROCS=1 started >1.1 s later); app hash at every height, every tx result (code, data, gas wanted/used), and height/hash/state right after each restart are compared by TLC monitors",
                 assumptions=COMMON_ASSUME + ["crashes are placed between ABCI calls (inside Commit the atomicity is the SDK/DB's)", "nondeterministic statements on paths no transaction reaches are not observable"]),
+    "C20": dict(mc={"quick": [dict(module="MC_Page.tla", cfg="MC_Page_quick.cfg", workers=8, timeout=300)],
+                    "thorough": [dict(module="MC_Page.tla", cfg="MC_Page_full.cfg", workers=16, timeout=900)]},
+                random=both(rnd("lqmix", (400, 2), (2500, 8)), rnd("lqent", (300, 1), (2000, 4)), rnd("lqreg", (300, 1), (2000, 4)), rnd("lqstr", (300, 1), (2000, 4))),
+                rule="TLC exhaustive on MC_Page (Paginate.tla: every store of <= N entries, every filter subset, every limit 1..N+1, key and offset continuation: the paging loop returns every matching entry exactly once in key order); on the real app, in states reached by seeded random histories, EVERY list query of the four modules (purchase orders by status/purchaser, whitelist, WRKChains and BEACONs by owner/moniker, streams / by sender / by receiver) runs with every filter value present (+ an absent one), page limits 1..n+1 (sampled mid-run, all at the end of each run), key and offset continuation; TLC checks each recorded page and continuation key against Paginate.tla given the item list of the same state, item-by-item equality with the point queries, totals, and that the state is unchanged by the queries",
+                assumptions=COMMON_ASSUME + ["the order of the stream store is computed independently of the repository's key builders (length-prefixed receiver, sender bytes)"]),
     "C15": dict(custom=c15_custom,
                 rule="TLC checks C15State (import assertions hold, round trip is the identity on the four modules' state up to the export cap, second export identical, imported state satisfies every module invariant) in EVERY reachable state of MC_Fee / MC_Reg (export cap 2) / MC_Str; on the real app, TLC-simulated behaviours get an export + import into a fresh default-configured app after every block boundary (one variant each) and seeded random histories at random boundaries; import must not panic, all registered invariants must hold, the second export's enterprise/wrkchain/beacon/stream sections must be identical, projections equal, and the rest of the behaviour runs on both chains in lockstep with equal projections",
                 assumptions=COMMON_ASSUME + ["sections of SDK modules in the exported document are not compared", "the 20,000-record export cap is crossed only in the model (cap 2), not on the real app"]),
